@@ -92,7 +92,7 @@ func phases(thorough bool) []phase {
 		{"pairs_with_a_critical_atom", crit1Pairs, func(s *Site) bool { return s.Ctx == "" || !s.Secondary }},
 		{"pairs_with_a_core_atom", core1Pairs, noCtx},
 		{"all_pairs", allPairs, noCtx},
-		{"triples_of_core_atoms", triples, noCtx},
+		{"triples_of_core_atoms", triples, primaryNoCtx},
 	}
 }
 
